@@ -81,9 +81,12 @@ PARAM_RANGE = {
     "GeneralizedGamma": dict(m=(0.5, 8), c=(0.6, 3), lambda_=(0.1, 5)),
     "VonMises": dict(kappa=(0.2, 20), mu=(-2, 2)),
     "LogNormalNormFit": dict(mu_norm=(0.3, 20), sigma_norm=(0.05, 6)),
+    "ScipyGamma": dict(a=(0.8, 10), loc=(0.0, 2.0), scale=(0.2, 5)),
+    "ScipyGenGamma": dict(a=(0.6, 6), c=(0.6, 3), loc=(0.0, 1.0), scale=(0.2, 5)),
 }
 # parameters that may be any real number (location-like): targets drawn uniformly
-REAL_PARAMS = {("LogNormal", "mu"), ("Normal", "mu"), ("VonMises", "mu"), ("Weibull", "gamma")}
+REAL_PARAMS = {("LogNormal", "mu"), ("Normal", "mu"), ("VonMises", "mu"), ("Weibull", "gamma"),
+               ("ScipyGamma", "loc"), ("ScipyGenGamma", "loc")}
 
 
 def family_params(families=ALL, wide=True):
